@@ -61,11 +61,17 @@ def _copy_h5_element(
         if current_location not in excluded_datasets:
             src_dataset = src_handle[current_location]
             chunks = src_dataset.chunks
+            if chunks is not None:
+                # a resizable dataset may have chunks larger than its
+                # shape (anndata writes an array without entries as
+                # shape (0,), chunks (1024,)); the copy is not resizable
+                if any(c > s for c, s in zip(chunks, src_dataset.shape)):
+                    chunks = None
             if chunks is None:
                 dst_dataset = dst_handle.create_dataset(
                     current_location,
                     data=src_dataset,
-                    chunks=src_dataset.chunks,
+                    chunks=chunks,
                     compression=src_dataset.compression,
                     compression_opts=src_dataset.compression_opts)
             else:
